@@ -138,7 +138,18 @@ fn make_case(arg_lists: &[Vec<usize>], iface_oneway: bool, method_oneway_mask: u
         item.members.push(Member::Method(m));
     }
     let mut files = support();
-    files.push(ProjFile::from_doc_styled("obs", observed_header(item), method_oneway_mask == 0x5555));
+    let mut header = observed_header(item);
+    if const_at == Some(2) {
+        // data values: project items, an unknown import and a forward declaration that are
+        // *named like built-ins* follow the rules of their own category, not the built-in's
+        header.imports.push(Import::new("lib.FileDescriptor"));
+        header.imports.push(Import::new("lib.ParcelFileDescriptor"));
+        header.imports.push(Import::new("lib.IBinder"));
+        header.decls.push(Decl::new("ParcelableHolder"));
+        files.push(ProjFile::from_doc("lib-fd", Document::new("lib", Item::new(ItemKind::Parcelable, "FileDescriptor"))));
+        files.push(ProjFile::from_doc("lib-ibinder", Document::new("lib", Item::new(ItemKind::Enum, "IBinder"))));
+    }
+    files.push(ProjFile::from_doc_styled("obs", header, method_oneway_mask == 0x5555));
     let oi = files.len() - 1;
     let exp = expect_observed(&files, oi);
     let doc = files[oi].doc.as_ref().unwrap();
@@ -227,11 +238,11 @@ pub fn run(tier: Tier, seed: u64) -> i32 {
     // unpacked singles: one argument per file
     super::drive(
         &stats,
-        ncell * 4 * 2,
+        ncell * 4 * 3,
         1,
         |i| {
-            let const_at = if i % 2 == 1 { Some(0) } else { None };
-            let i = i / 2;
+            let const_at = [None, Some(0), Some(2)][i % 3];
+            let i = i / 3;
             let cell = i / 4;
             let io = i % 2 == 1;
             let mo = (i / 2) % 2 == 1;
